@@ -21,7 +21,10 @@
 
    Left to the correspondence stream (see `partial`): that in lazy mode the cited statement is the one that
    created the failing thunk / deferred statement (the theorem says: some statement of the right stanza), and the
-   node KIND / source position shown for the node (the model identifies nodes by index). *)
+   node KIND / source position recorded for the node (the model identifies nodes by index).
+
+   RENDERING (second half of this file; model: Model/ErrRender.v, stream C20r): render_pretty_cites,
+   render_pretty_shows_lines, render_pretty_shows_stmt, render_pretty_entries, excerpt_missing_source, ... *)
 From TSG Require Import Model.Strict Model.Lazy Proofs.StrictMeta Proofs.ErrorCtx Proofs.Captures Proofs.ErrorCtxValid.
 From TSG Require Import Model.ErrRender Proofs.ParseErr Proofs.ErrRender.
 
